@@ -36,7 +36,33 @@ var Solvers = []SolverCfg{
 // Script of an obligation.
 func (o *Obligation) Script(getValues []*Term) string {
 	u := o.Unit
-	hyps := append([]*Term{}, u.assumes[:o.NHyps]...)
+	// hypotheses guarded by a condition that contradicts this obligation's path condition are irrelevant
+	neg := map[int]bool{}
+	for _, x := range conjuncts(o.PC) {
+		if x.Op == OpNot {
+			neg[x.Args[0].id] = true
+		} else {
+			neg[-x.id] = true
+		}
+	}
+	var hyps []*Term
+	for _, h := range u.assumes[:o.NHyps] {
+		skip := false
+		if h.Op == OpImplies {
+			for _, x := range conjuncts(h.Args[0]) {
+				if x.Op == OpNot {
+					if neg[-x.Args[0].id] {
+						skip = true
+					}
+				} else if neg[x.id] {
+					skip = true
+				}
+			}
+		}
+		if !skip {
+			hyps = append(hyps, h)
+		}
+	}
 	hyps = append(hyps, o.PC)
 	return u.C.Script(hyps, u.C.Skolemize(o.Goal), getValues)
 }
@@ -147,7 +173,11 @@ func Discharge(obls []*Obligation, dir string, timeoutS, workers int) []Result {
 		go func() {
 			defer wg.Done()
 			defer func() { <-sem }()
-			v := RunQuery(script, dir, fmt.Sprintf("q%04d", i), timeoutS, Solvers)
+			// most obligations are easy: one solver with a short budget first, the full race only if undecided
+			v := RunQuery(script, dir, fmt.Sprintf("q%04d", i), 2, Solvers[:1])
+			if v.Status != "sat" && v.Status != "unsat" {
+				v = RunQuery(script, dir, fmt.Sprintf("q%04d", i), timeoutS, Solvers)
+			}
 			res[i].V = v
 			res[i].OK = v.Status == o.Expect
 			if res[i].OK {
